@@ -122,6 +122,7 @@ def h1(a, tier):
                 log.append(("begin", i))
                 received[i] = args
                 finish()
+                return i  # sync callbacks may return any value (0, 1, 2 here): only AWAITABLES are awaited
 
         elif kind == 1:
 
@@ -338,7 +339,12 @@ def h2(a, tier):
                 finally:
                     log.append(("begin", i))
 
-            await start_service_task(service, f"svc{i}")
+            if helper:
+                # started through the owner's METHOD while another, short-lived context is current
+                async with Context():
+                    await ctx.start_service_task(service, f"svc{i}")
+            else:
+                await start_service_task(service, f"svc{i}")
 
     async def block():
         try:
